@@ -14,10 +14,42 @@ Proof.
   rewrite !in_app_iff. destruct H as [H|[H|H]]; [left|right; left|right; right]; apply zrange_in; lia.
 Qed.
 
+(* a plain decimal integer: digits and separators only; the only numeric literals that a '.' continues *)
+Definition is_dec_int (T : list Z) : bool := forallb (fun b => ((48 <=? b) && (b <=? 57)) || (b =? 95)) T.
+
+Lemma dos_digit_step l n : dig_or_sep digit1 l = Ok n -> 0 < n -> 0 <= n /\ is_dec_int (firstz n l) = true.
+Proof.
+  unfold dig_or_sep, digit1, num_sep. destruct l as [|c l']; [discriminate|]. rewrite pkl_cons_0. cbn [rbind].
+  destruct ((48 <=? c) && (c <=? 57)) eqn:Ed.
+  - change (0 <? 1) with true. cbv iota. intros Hx _. assert (n = 1) by (injection Hx; lia). subst n. split; [lia|].
+    change (firstz 1 (c :: l')) with [c]. unfold is_dec_int. cbn [forallb]. rewrite Ed. reflexivity.
+  - change (0 <? 0) with false. cbv iota. destruct (negb (c =? 95)) eqn:E95; [intros [= <-]; lia|].
+    rewrite skipz_1_cons. destruct l' as [|c1 l'']; [discriminate|]. rewrite pkl_cons_0. cbn [rbind].
+    destruct ((48 <=? c1) && (c1 <=? 57)) eqn:Ed1.
+    + change (1 <=? 0) with false. cbv iota. intros Hx _. assert (n = 2) by (injection Hx; lia). subst n. split; [lia|].
+      change (firstz 2 (c :: c1 :: l'')) with [c; c1]. unfold is_dec_int. cbn [forallb]. rewrite Ed1.
+      replace (c =? 95) with true by lia. rewrite orb_true_r. reflexivity.
+    + change (0 <=? 0) with true. cbv iota. intros [= <-]. lia.
+Qed.
+
+Lemma is_dec_int_app a b : is_dec_int (a ++ b) = is_dec_int a && is_dec_int b.
+Proof. apply forallb_app. Qed.
+
+Lemma rep_dos_dec_int : forall fuel l m, rep (dig_or_sep digit1) fuel l = Ok m -> 0 <= m /\ is_dec_int (firstz m l) = true.
+Proof.
+  induction fuel as [|f IH]; intros l m H; [discriminate|]. cbn [rep] in H.
+  destruct (dig_or_sep digit1 l) as [n| |] eqn:En; cbn [rbind] in H; try discriminate.
+  destruct (n <=? 0) eqn:E0.
+  - assert (m = 0) by congruence. subst m. split; [lia|reflexivity].
+  - destruct (rep (dig_or_sep digit1) f (skipz n l)) as [m'| |] eqn:Em; cbn [rbind] in H; try discriminate.
+    assert (m = n + m') by congruence. subst m.
+    destruct (dos_digit_step l n En ltac:(lia)) as (Hn & Hd). destruct (IH _ _ Em) as (Hm & Hd').
+    split; [lia|]. rewrite firstz_plus by lia. rewrite is_dec_int_app, Hd, Hd'. reflexivity.
+Qed.
+
 Section NumExchange.
 Variables (c0 : Z) (RR : list Z).
 Hypothesis Hs1 : tab_cont c0 = false.
-Hypothesis Hs2 : c0 <> 46.
 Let R' := c0 :: RR.
 
 Lemma HR' : R' <> []. Proof. discriminate. Qed.
@@ -27,7 +59,7 @@ Proof. intros H. rewrite (tab_cont_hex c0 H) in Hs1. discriminate. Qed.
 
 (* c0 is none of the letters the numeric scanner tests for *)
 Ltac nc k := replace (c0 =? k) with false
-  by (symmetry; apply Z.eqb_neq; first [exact Hs2 | intros Hx; rewrite Hx in Hs1; vm_compute in Hs1; discriminate]).
+  by (symmetry; apply Z.eqb_neq; first [assumption | intros Hx; rewrite Hx in Hs1; vm_compute in Hs1; discriminate]).
 
 Lemma pkl_at_end2 T k : k = len T -> pkl (T ++ R') k = Ok c0.
 Proof.
@@ -160,13 +192,15 @@ Qed.
 
 Lemma num_tail_exchange first T R k n ty e : no_trunc T = true -> R <> [] -> 0 <= k <= len T ->
   num_tail first (T ++ R) k = Ok (n, ty, e) -> n = len T -> ty <> ErrorToken ->
+  (k = len T -> c0 <> 46) ->
   num_tail first (T ++ R') k = Ok (n, ty, e).
 Proof.
-  intros HT HR Hk H Hn Hty. unfold num_tail in H |- *. rewrite pkl_skipz in H |- * by lia.
+  intros HT HR Hk H Hn Hty Hdot. unfold num_tail in H |- *. rewrite pkl_skipz in H |- * by lia.
   replace (k + 0) with k in * by lia.
   destruct (pkl (T ++ R) k) as [c| |] eqn:Ec; cbn [rbind] in H; try discriminate.
   destruct (Z.eq_dec k (len T)) as [Hkl|Hkl].
   - (* nothing of the tail lies in T *)
+    pose proof (Hdot Hkl) as H46.
     rewrite pkl_at_end2 by assumption. cbn [rbind]. nc 46. nc 110. nc 101. nc 69. cbn [negb andb]. cbv iota.
     destruct (c =? 46) eqn:E46.
     { exfalso. crunch H.
@@ -242,9 +276,10 @@ Qed.
 
 Lemma numeric_exchange T R n ty e : no_trunc T = true -> R <> [] -> 0 < len T ->
   numeric (T ++ R) = Ok (n, ty, e) -> n = len T -> ty <> ErrorToken ->
+  (c0 = 46 -> is_dec_int T = false) ->
   numeric (T ++ R') = Ok (n, ty, e).
 Proof.
-  intros HTn HR HT H Hn Hty. unfold numeric in H |- *.
+  intros HTn HR HT H Hn Hty Hdot. unfold numeric in H |- *.
   destruct T as [|t0 T]; [change (len (@nil Z)) with 0 in HT; lia|]. cbn [app] in H |- *.
   rewrite pkl_cons_0 in H |- *. cbn [rbind] in H |- *.
   change (t0 :: T ++ R) with ((t0 :: T) ++ R) in H. change (t0 :: T ++ R') with ((t0 :: T) ++ R').
@@ -273,9 +308,12 @@ Proof.
         destruct (c =? 110); [exfalso; assert (n = 2) by congruence; lia|].
         destruct ((48 <=? c) && (c <=? 57)); [exfalso; apply Hty; congruence|].
         right. exact H. }
+      assert (H46 : c0 <> 46).
+      { intros E46. specialize (Hdot E46). destruct T as [|x T']; [|rewrite len_cons in HTT; pose proof (len_nonneg T'); lia].
+        assert (t0 = 48) by lia. subst t0. discriminate Hdot. }
       destruct Hres as [(-> & -> & ->)|Hres].
       * unfold num_tail. rewrite pkl_skipz by lia. rewrite pkl_at_end2 by lia. cbn [rbind]. nc 46. nc 110. nc 101. nc 69. reflexivity.
-      * apply (num_tail_exchange t0 TT R 1 n ty e HTn' HR ltac:(lia) Hres Hn Hty).
+      * apply (num_tail_exchange t0 TT R 1 n ty e HTn' HR ltac:(lia) Hres Hn Hty). intros _. exact H46.
     + assert (H2 : 2 <= len TT) by lia.
       xfer2 Ec R'.
       destruct ((c =? 120) || (c =? 88)); [apply (num_radix_exchange _ _ _ _ _ _ _ hex1_bs Hz_hex1 HTn' HR H2 H Hn)|].
@@ -283,7 +321,7 @@ Proof.
       destruct ((c =? 111) || (c =? 79)); [apply (num_radix_exchange _ _ _ _ _ _ _ oct1_bs Hz_oct1 HTn' HR H2 H Hn)|].
       destruct (c =? 110); [exact H|].
       destruct ((48 <=? c) && (c <=? 57)); [exact H|].
-      apply (num_tail_exchange t0 TT R 1 n ty e HTn' HR ltac:(lia) H Hn Hty).
+      apply (num_tail_exchange t0 TT R 1 n ty e HTn' HR ltac:(lia) H Hn Hty). intros; lia.
   - destruct (negb (t0 =? 46)).
     + destruct (repl (dig_or_sep digit1) (TT ++ R)) as [m| |] eqn:Em; cbn [rbind] in H; try discriminate.
       pose proof (dos_loop_nonneg _ _ _ digit1_bs Em) as Hm0.
@@ -292,7 +330,9 @@ Proof.
       pose proof (dos_loop_part2 digit1 TT R 0 m digit1_bs Hz_digit1 HTn' HR ltac:(lia) Em ltac:(lia)) as Em'.
       change (skipz 0 (TT ++ R')) with (TT ++ R') in Em'. rewrite Em'. cbn [rbind].
       apply (num_tail_exchange t0 TT R m n ty e HTn' HR ltac:(lia) H Hn Hty).
-    + apply (num_tail_exchange t0 TT R 0 n ty e HTn' HR ltac:(lia) H Hn Hty).
+      intros Hm E46. specialize (Hdot E46). unfold repl in Em. destruct (rep_dos_dec_int _ _ _ Em) as (_ & Hd).
+      change (skipz 0 (TT ++ R)) with (TT ++ R) in Hd. rewrite Hm, firstz_app_exact in Hd. fold TT in Hdot. congruence.
+    + apply (num_tail_exchange t0 TT R 0 n ty e HTn' HR ltac:(lia) H Hn Hty). intros; lia.
 Qed.
 
 
